@@ -391,3 +391,25 @@ contract("usim.py.resources.resource.Resource.request",
 contract("usim.py.resources.resource.Resource.release",
          params={"self": REF("Resource"), "request": REF("Request")}, returns=REF("Release"),
          **_api(_GET, [_PLAIN_RES], ["result.request is request"]))
+
+
+# ---------------------------------------------------------------------------------------------- leaving a `with request:` block
+contract("usim.py.resources.base.BaseRequest.__exit__",
+         params={"self": REF("BaseRequest"), "exc_type": ANY, "exc_value": ANY, "traceback": ANY},
+         requires=["isinstance(self, Put) or isinstance(self, Get)"],
+         ensures=[
+             # a granted request keeps what it holds, a pending one is withdrawn: afterwards it is queued nowhere ...
+             "implies(old(self.fired), self.resource.put_queue == old(self.resource.put_queue) and self.resource.get_queue == old(self.resource.get_queue))",
+             "implies(isinstance(self, Put), self.resource.get_queue == old(self.resource.get_queue) and len(self.resource.put_queue) >= len(old(self.resource.put_queue)) - 1)",
+             "implies(isinstance(self, Get), self.resource.put_queue == old(self.resource.put_queue) and len(self.resource.get_queue) >= len(old(self.resource.get_queue)) - 1)",
+             # ... and the exception of the block, if any, is not swallowed
+             "result is None"],
+         modifies=["BaseResource.put_queue@self.resource", "BaseResource.get_queue@self.resource"], no_invariants=True, props=["C19"])
+
+# observers used by programs (and by the statement of C19) to look at the content
+contract("usim.py.resources.container.Container.level", pure=True, params={"self": REF("Container")}, returns=REAL,
+         ensures=["result == self._level", "0 <= result and result <= self._capacity"], modifies=[], inv_scope=["Container"], props=["C19"])
+contract("usim.py.resources.base.BaseResource.capacity", pure=True, params={"self": REF("BaseResource")}, returns=REAL,
+         ensures=["result == self._capacity"], modifies=[], no_invariants=True, props=["C19"])
+contract("usim.py.resources.resource.Resource.count", pure=True, params={"self": REF("Resource")}, returns=INT,
+         ensures=["result == len(self.users)", "result < self._capacity + 1"], modifies=[], inv_scope=["Resource"], props=["C19"])
